@@ -587,6 +587,9 @@ type RDPCorrInfo struct {
 }
 
 func (i *RDPCorrInfo) FromBytes(src []byte) error {
+	if len(src) != int(RDPCorrInfoBytesTotal) {
+		return io.ErrUnexpectedEOF
+	}
 	return binary.Read(bytes.NewBuffer(src), RDPCorrInfoBytesOrder, i)
 }
 
@@ -604,6 +607,9 @@ type RDPNegReq struct {
 }
 
 func (r *RDPNegReq) FromBytes(src []byte) error {
+	if len(src) != int(RDPNegReqBytesTotal) {
+		return io.ErrUnexpectedEOF
+	}
 	return binary.Read(bytes.NewBuffer(src), RDPNegReqBytesOrder, r)
 }
 
@@ -693,6 +699,9 @@ type TPKTHeader struct {
 }
 
 func (h *TPKTHeader) FromBytes(src []byte) error {
+	if len(src) != int(TPKTHeaderBytesTotal) {
+		return io.ErrUnexpectedEOF
+	}
 	return binary.Read(bytes.NewBuffer(src), TPKTHeaderBytesOrder, h)
 }
 
@@ -711,6 +720,9 @@ type X224Crq struct {
 }
 
 func (x *X224Crq) FromBytes(src []byte) error {
+	if len(src) != int(X224CrqBytesTotal) {
+		return io.ErrUnexpectedEOF
+	}
 	return binary.Read(bytes.NewBuffer(src), X224CrqBytesOrder, x)
 }
 
